@@ -31,6 +31,11 @@
 #define PAGE_SIZE (64 * 1024)
 //#define PAGE_SIZE 2097152
 
+#if defined(NAKEN_ASM_VERIF) && defined(NAKEN_ASM_VERIF_PAGE_SIZE)
+#undef PAGE_SIZE
+#define PAGE_SIZE NAKEN_ASM_VERIF_PAGE_SIZE
+#endif
+
 class MemoryPage
 {
 public:
